@@ -3,4 +3,4 @@ From Coq Require Extraction ExtrOcamlBasic.
 From Nice Require Import Stream.StreamBase Stream.TurnTcpModel Stream.TcpQueueModel Stream.PsslModel Stream.Socks5Model Stream.HttpModel.
 Extraction Language OCaml.
 Extraction "../ocaml/gen/stream_model.ml" feed turn_init turn_body turn_send q_step
-  pssl_init pssl_hello pssl_body pssl_send socks_init socks_greeting socks_body socks_send http_init http_body http_send.
+  pssl_init pssl_hello pssl_body pssl_send socks_init socks_greeting socks_body socks_send http_init http_feed http_send.
